@@ -7,87 +7,323 @@ Open Scope Z_scope.
 (* ------------------------------------------------------------------ *)
 (* the real writer                                                      *)
 
-Lemma flush_fresh b h0 :
-  flush b (rw_fresh h0) =
-  mkRW (overlay h0 (bh b)) (Some (bcode b, overlay h0 (bh b))) (bbody b).
+Lemma timeout_write_fresh k fl h0 : timeout_write k (rw_fresh fl h0) = timeout_resp fl h0 k.
+Proof. destruct k; reflexivity. Qed.
+
+Lemma is_info_timeout_code k : is_info (timeout_code k) = false.
+Proof. destruct k; reflexivity. Qed.
+
+Lemma rw_wh_rfl c w : rfl (rw_wh c w) = rfl w.
+Proof. unfold rw_wh. destruct (rres w); [reflexivity|]. destruct (is_info c); reflexivity. Qed.
+
+Lemma rw_write_rfl bs w : rfl (rw_write bs w) = rfl w.
+Proof. unfold rw_write. cbn. apply rw_wh_rfl. Qed.
+
+(* ------------------------------------------------------------------ *)
+(* handler actions                                                      *)
+
+Definition panic_res (r : ares) : option pval :=
+  match r with RPanic p => Some p | _ => None end.
+
+Lemma tw_flush_rfl to b w : rfl (snd (tw_flush to b w)) = rfl w.
 Proof.
-  unfold flush, rw_fresh, rw_write, rw_wh, rw_hdr. cbn.
-  destruct (Z.eqb_spec (bcode b) 200) as [E|E]; cbn.
-  - rewrite E. reflexivity.
-  - reflexivity.
+  unfold tw_flush. destruct (rfl w) eqn:E; cbn [negb].
+  - destruct to; cbn [snd]; [exact E|]. rewrite rw_write_rfl.
+    destruct (bfl b); [exact E|]. destruct (_ =? 200); [exact E|]. rewrite rw_wh_rfl. exact E.
+  - cbn [snd]. exact E.
 Qed.
 
-Lemma timeout_write_fresh k h0 : timeout_write k (rw_fresh h0) = timeout_resp h0 k.
-Proof. reflexivity. Qed.
+Lemma hact_rfl to bw a : rfl (snd (fst (hact to bw a))) = rfl (snd bw).
+Proof.
+  destruct a; cbn [hact]; try (destruct (tw_act to (fst bw) _) as [b' r]; reflexivity).
+  cbn. apply tw_flush_rfl.
+Qed.
+
+(* once timed out, no action of the handler touches the real writer *)
+Lemma hact_timedout_rw bw a : snd (fst (hact true bw a)) = snd bw.
+Proof.
+  destruct a; cbn [hact]; try (destruct (tw_act true (fst bw) _) as [b' r]; reflexivity).
+  cbn. unfold tw_flush. destruct (negb (rfl (snd bw))); reflexivity.
+Qed.
+
+(* a writer that is no Flusher is never touched by the handler; and only Flush touches it *)
+Lemma hact_noflusher_rw to bw a : rfl (snd bw) = false -> snd (fst (hact to bw a)) = snd bw.
+Proof.
+  intros E. destruct a; cbn [hact]; try (destruct (tw_act to (fst bw) _) as [b' r]; reflexivity).
+  cbn. unfold tw_flush. rewrite E. reflexivity.
+Qed.
+
+Lemma hact_notflush_rw to bw a : a <> AFlush -> snd (fst (hact to bw a)) = snd bw.
+Proof.
+  intros N. destruct a; cbn [hact]; try (destruct (tw_act to (fst bw) _) as [b' r]; reflexivity).
+  congruence.
+Qed.
 
 (* ------------------------------------------------------------------ *)
 (* reference semantics of the handler                                   *)
 
-Lemma href_app : forall l1 l2 b,
-  href b (l1 ++ l2) =
-  match href b l1 with
-  | (b', None) => href b' l2
-  | (b', Some p) => (b', Some p)
+Lemma href_app : forall l1 l2 bw,
+  href bw (l1 ++ l2) =
+  match href bw l1 with
+  | (bw', None) => href bw' l2
+  | (bw', Some p) => (bw', Some p)
   end.
 Proof.
-  induction l1 as [|a l1 IH]; intros l2 b; cbn [app href].
+  induction l1 as [|a l1 IH]; intros l2 bw; cbn [app href].
   - reflexivity.
-  - destruct (tw_act false b a) as [b' res]. destruct res; try apply IH. reflexivity.
+  - destruct (hact false bw a) as [bw' res]. destruct res; try apply IH. reflexivity.
 Qed.
 
 Definition panic_of (h : hstat) : option pval :=
   match h with HPanicked p => Some p | _ => None end.
 
-Lemma href_snoc b0 ex a b :
-  href b0 ex = (b, None) ->
-  href b0 (ex ++ [a]) =
-  (fst (tw_act false b a),
-   match snd (tw_act false b a) with RPanic p => Some p | _ => None end).
+Lemma href_snoc bw0 ex a bw :
+  href bw0 ex = (bw, None) ->
+  href bw0 (ex ++ [a]) = (fst (hact false bw a), panic_res (snd (hact false bw a))).
 Proof.
   intros H. rewrite href_app, H. cbn [href].
-  destruct (tw_act false b a) as [b' res]. destruct res; reflexivity.
+  destruct (hact false bw a) as [bw' res]. destruct res; reflexivity.
 Qed.
 
-(* the independent description agrees with the reference semantics *)
-Lemma href_spec : forall acts b,
-  (bwrote b = false -> bcode b = 200) ->
-  snd (href b acts) = spec_panic (bwrote b) acts /\
-  (spec_panic (bwrote b) acts = None ->
-   bh (fst (href b acts)) = fold_left spec_hdr_act acts (bh b) /\
-   bbody (fst (href b acts)) = bbody b ++ spec_body acts /\
-   bcode (fst (href b acts)) = (if bwrote b then bcode b else spec_status acts)).
+Lemma hact_check to bw : hact to bw ACheckCtx = (bw, RNone).
+Proof. destruct bw. reflexivity. Qed.
+
+(* without an effective Flush the real writer is not touched by the reference run *)
+Lemma href_rw_untouched : forall acts bw,
+  rfl (snd bw) = false \/ has_flush acts = false ->
+  snd (fst (href bw acts)) = snd bw.
 Proof.
-  induction acts as [|a acts IH]; intros b Hc.
-  - cbn. split; [reflexivity|]. intros _. rewrite app_nil_r.
-    destruct (bwrote b) eqn:E; auto.
-  - destruct a as [k v|k v|k|c|bs| |p]; cbn [href tw_act spec_panic spec_body spec_status fold_left spec_hdr_act].
-    + specialize (IH (buf_hdr (hset k [v]) b) Hc). cbn in IH. exact IH.
-    + specialize (IH (buf_hdr (fun m => hset k (hget k m ++ [v]) m) b) Hc). cbn in IH. exact IH.
-    + specialize (IH (buf_hdr (hdel k) b) Hc). cbn in IH. exact IH.
-    + pose proof (IH b Hc) as IHb. destruct (bwrote b) eqn:Ew.
-      * exact IHb.
-      * destruct (bad_code c) eqn:Eb.
-        -- cbn. split; [reflexivity|discriminate].
-        -- specialize (IH (mkBuf (bh b) (bbody b) c true) ltac:(discriminate)). cbn in IH. exact IH.
-    + specialize (IH (mkBuf (bh b) (bbody b ++ bs) (if bwrote b then bcode b else 200) true)
-                     ltac:(discriminate)).
-      cbn in IH. destruct IH as [IH1 IH2]. split; [exact IH1|].
-      intros Hn. destruct (IH2 Hn) as (H1 & H2 & H3). rewrite H1, H2, H3.
-      rewrite <- app_assoc. destruct (bwrote b); auto.
-    + apply IH, Hc.
+  induction acts as [|a acts IH]; intros bw H; cbn [href]; [reflexivity|].
+  destruct (hact false bw a) as [bw' res] eqn:Ea.
+  assert (E : snd bw' = snd bw).
+  { replace bw' with (fst (hact false bw a)) by (rewrite Ea; reflexivity).
+    destruct H as [H|H]; [apply hact_noflusher_rw, H|].
+    apply hact_notflush_rw. intros ->. cbn in H. discriminate. }
+  assert (H' : rfl (snd bw') = false \/ has_flush acts = false).
+  { destruct H as [H|H]; [left; rewrite E; exact H|right].
+    unfold has_flush in *. cbn in H. apply orb_false_iff in H. apply H. }
+  destruct res; try (rewrite (IH bw' H'); exact E). cbn. exact E.
+Qed.
+
+Lemma committed_untouched fl h0 acts :
+  fl = false \/ has_flush acts = false -> committed fl h0 acts = rw_fresh fl h0.
+Proof. intros H. unfold committed. rewrite href_rw_untouched; [reflexivity|exact H]. Qed.
+
+Lemma has_flush_app a b : has_flush (a ++ b) = has_flush a || has_flush b.
+Proof. unfold has_flush. apply existsb_app. Qed.
+
+(* ------------------------------------------------------------------ *)
+(* the independent description agrees with the reference semantics      *)
+
+(* phase 1: after the first effective Flush everything the handler writes is
+   appended, status and headers stay *)
+Lemma href_flushed : forall acts b w x,
+  rfl w = true -> bfl b = true -> bwrote b = true -> rres w = Some x ->
+  snd (href (b, w) acts) = spec_panic true true acts /\
+  (spec_panic true true acts = None ->
+   rw_view (flush (fst (fst (href (b, w) acts))) (snd (fst (href (b, w) acts)))) =
+   (rinfo w, Some x, rbody w ++ bbody b ++ spec_body acts)).
+Proof.
+  induction acts as [|a acts IH]; intros b w x Hf Hb Hw Hr.
+  - cbn. split; [reflexivity|]. intros _. unfold flush, rw_view, rw_write, rw_wh, rw_hdr. cbn.
+    rewrite Hb, orb_true_r. cbn. rewrite Hr. cbn. rewrite app_nil_r. reflexivity.
+  - destruct a as [k v|k v|k|c|bs| |p| ]; cbn [href hact tw_act fst snd spec_panic spec_body].
+    + apply (IH (buf_hdr (hset k [v]) b) w x); auto.
+    + apply (IH (buf_hdr (fun m => hset k (hget k m ++ [v]) m) b) w x); auto.
+    + apply (IH (buf_hdr (hdel k) b) w x); auto.
+    + rewrite Hw. cbn. apply (IH b w x); auto.
+    + rewrite Hw. cbn.
+      destruct (IH (mkBuf (bh b) (bbody b ++ bs) (bcode b) true (bfl b)) w x Hf Hb eq_refl Hr) as [I1 I2].
+      split; [exact I1|]. intros Hn. rewrite (I2 Hn). cbn. rewrite <- !app_assoc. reflexivity.
+    + apply (IH b w x); auto.
     + cbn. split; [reflexivity|discriminate].
+    + unfold tw_flush. rewrite Hf. cbn. rewrite Hb, Hw.
+      set (w1 := rw_hdr (fun d => overlay d (bh b)) w).
+      assert (Hr1 : rres w1 = Some x) by exact Hr.
+      assert (Hw1 : rw_write (bbody b) w1 =
+                    mkRW (rfl w) (rlive w1) (Some x) (rbody w ++ bbody b) (rinfo w)).
+      { unfold rw_write, rw_wh. rewrite Hr1. cbn. rewrite Hr. reflexivity. }
+      rewrite Hw1.
+      destruct (IH (mkBuf (bh b) [] (bcode b) true true)
+                   (mkRW (rfl w) (rlive w1) (Some x) (rbody w ++ bbody b) (rinfo w)) x
+                   Hf eq_refl eq_refl eq_refl) as [I1 I2].
+      split; [exact I1|]. intros Hn. rewrite (I2 Hn). cbn. rewrite <- app_assoc. reflexivity.
 Qed.
 
-Lemma script_panic_spec acts : snd (href buf0 acts) = spec_panic false acts.
-Proof. apply (href_spec acts buf0). reflexivity. Qed.
+Definition fl_code (b : tbuf) : Z := if bwrote b then bcode b else 200.
+Definition fl_writer (b : tbuf) (h0 : hdrs) : rwriter :=
+  rw_write (bbody b)
+    (if fl_code b =? 200 then rw_hdr (fun d => overlay d (bh b)) (rw_fresh true h0)
+     else rw_wh (fl_code b) (rw_hdr (fun d => overlay d (bh b)) (rw_fresh true h0))).
 
-Lemma complete_spec h0 acts :
-  spec_panic false acts = None -> complete h0 acts = spec_complete h0 acts.
+Lemma tw_flush_first b h0 :
+  bfl b = false ->
+  tw_flush false b (rw_fresh true h0) = (mkBuf (bh b) [] (fl_code b) true true, fl_writer b h0).
+Proof. intros Hb. unfold tw_flush, fl_writer, fl_code. cbn [rfl rw_fresh negb]. rewrite Hb. reflexivity. Qed.
+
+Lemma tw_flush_noflusher to b h0 : tw_flush to b (rw_fresh false h0) = (b, rw_fresh false h0).
+Proof. reflexivity. Qed.
+
+Lemma fl_writer_shape b h0 :
+  rfl (fl_writer b h0) = true /\ (exists x, rres (fl_writer b h0) = Some x) /\
+  (is_info (fl_code b) = false ->
+   fl_writer b h0 = mkRW true (overlay h0 (bh b)) (Some (fl_code b, overlay h0 (bh b))) (bbody b) []).
 Proof.
-  intros Hn. unfold complete, spec_complete. rewrite flush_fresh.
-  destruct (href_spec acts buf0 ltac:(reflexivity)) as [_ H].
-  destruct (H Hn) as (H1 & H2 & H3). cbn in H1, H2, H3.
-  rewrite H1, H2, H3. reflexivity.
+  unfold fl_writer. split; [|split].
+  - rewrite rw_write_rfl. destruct (_ =? 200); [reflexivity|]. rewrite rw_wh_rfl. reflexivity.
+  - destruct (_ =? 200); [eexists; reflexivity|].
+    unfold rw_write, rw_wh, rw_hdr, rw_fresh. cbn. destruct (is_info _); cbn; eexists; reflexivity.
+  - intros Hic. destruct (Z.eqb_spec (fl_code b) 200) as [E|E].
+    + rewrite E. reflexivity.
+    + unfold rw_write, rw_wh, rw_hdr, rw_fresh. cbn. rewrite Hic. cbn. reflexivity.
+Qed.
+
+(* phase 0: nothing flushed yet, the real writer is still fresh *)
+Definition status_ok (fl : bool) (b : tbuf) (acts : list act) : Prop :=
+  if bwrote b then is_info (bcode b) = false else info_first fl acts = false.
+
+Lemma href_unflushed : forall acts fl h0 b,
+  bfl b = false ->
+  (bwrote b = false -> bcode b = 200) ->
+  snd (href (b, rw_fresh fl h0) acts) = spec_panic fl (bwrote b) acts /\
+  (spec_panic fl (bwrote b) acts = None ->
+   status_ok fl b acts ->
+   rw_view (flush (fst (fst (href (b, rw_fresh fl h0) acts))) (snd (fst (href (b, rw_fresh fl h0) acts)))) =
+   ([], Some (if bwrote b then bcode b else spec_status fl acts,
+              overlay h0 (fold_left spec_hdr_act (if fl then before_flush acts else acts) (bh b))),
+    bbody b ++ spec_body acts)).
+Proof.
+  induction acts as [|a acts IH]; intros fl h0 b Hb Hc.
+  - cbn. split; [reflexivity|]. intros _ Hi. rewrite app_nil_r.
+    assert (Hi' : is_info (bcode b) = false).
+    { unfold status_ok in Hi. destruct (bwrote b) eqn:E; [exact Hi|rewrite (Hc eq_refl); reflexivity]. }
+    assert (Hs : (if bwrote b then bcode b else 200) = bcode b).
+    { destruct (bwrote b); [reflexivity|symmetry; apply Hc; reflexivity]. }
+    rewrite Hs. unfold flush, rw_view, rw_write, rw_wh, rw_hdr, rw_fresh. rewrite Hb, orb_false_r.
+    assert (Hfold : fold_left spec_hdr_act (if fl then [] else []) (bh b) = bh b) by (destruct fl; reflexivity).
+    rewrite Hfold.
+    destruct (Z.eqb_spec (bcode b) 200) as [E|E]; cbn.
+    + rewrite E. reflexivity.
+    + rewrite Hi'. cbn. reflexivity.
+  - destruct a as [k v|k v|k|c|bs| |p| ];
+      cbn [href hact tw_act fst snd spec_panic spec_body spec_status info_first before_flush].
+    + destruct (IH fl h0 (buf_hdr (hset k [v]) b) Hb Hc) as [I1 I2]. split; [exact I1|].
+      intros Hn Hf. rewrite (I2 Hn Hf). cbn. destruct fl; reflexivity.
+    + destruct (IH fl h0 (buf_hdr (fun m => hset k (hget k m ++ [v]) m) b) Hb Hc) as [I1 I2].
+      split; [exact I1|]. intros Hn Hf. rewrite (I2 Hn Hf). cbn. destruct fl; reflexivity.
+    + destruct (IH fl h0 (buf_hdr (hdel k) b) Hb Hc) as [I1 I2]. split; [exact I1|].
+      intros Hn Hf. rewrite (I2 Hn Hf). cbn. destruct fl; reflexivity.
+    + pose proof (IH fl h0 b Hb Hc) as IHb. unfold status_ok in *. destruct (bwrote b) eqn:Ew.
+      * cbn. destruct IHb as [I1 I2]. split; [exact I1|].
+        intros Hn Hf. rewrite (I2 Hn Hf). destruct fl; reflexivity.
+      * destruct (bad_code c) eqn:Eb; [cbn; split; [reflexivity|discriminate]|]. cbn.
+        destruct (IH fl h0 (mkBuf (bh b) (bbody b) c true (bfl b)) Hb ltac:(discriminate)) as [I1 I2].
+        split; [exact I1|]. intros Hn Hf. cbn in Hf.
+        cbn in I2. rewrite (I2 Hn Hf). rewrite Hf. destruct fl; reflexivity.
+    + cbn.
+      destruct (IH fl h0 (mkBuf (bh b) (bbody b ++ bs) (if bwrote b then bcode b else 200) true (bfl b))
+                   Hb ltac:(discriminate)) as [I1 I2].
+      split; [exact I1|]. intros Hn Hf. cbn in I2.
+      assert (Hi2 : status_ok fl (mkBuf (bh b) (bbody b ++ bs) (if bwrote b then bcode b else 200) true (bfl b)) acts).
+      { unfold status_ok in *. cbn. destruct (bwrote b); [exact Hf|reflexivity]. }
+      rewrite (I2 Hn Hi2).
+      rewrite <- app_assoc. destruct (bwrote b); destruct fl; reflexivity.
+    + destruct (IH fl h0 b Hb Hc) as [I1 I2]. destruct b; cbn in *. split; [exact I1|].
+      intros Hn Hf. rewrite (I2 Hn Hf). destruct fl; reflexivity.
+    + cbn. split; [reflexivity|discriminate].
+    + destruct fl.
+      * (* an effective Flush: the header goes out *)
+        rewrite (tw_flush_first b h0 Hb). rewrite orb_true_r.
+        destruct (fl_writer_shape b h0) as (HW1 & [x HW2] & Hw).
+        destruct (href_flushed acts (mkBuf (bh b) [] (fl_code b) true true) (fl_writer b h0) x
+                               HW1 eq_refl eq_refl HW2) as [I1 I2].
+        split; [exact I1|].
+        intros Hn Hf.
+        assert (Hic : is_info (fl_code b) = false).
+        { unfold fl_code, status_ok in *. destruct (bwrote b); [exact Hf|reflexivity]. }
+        rewrite (I2 Hn). rewrite (Hw Hic) in HW2 |- *. cbn in HW2. inversion HW2; subst x. cbn.
+        unfold fl_code. destruct (bwrote b); reflexivity.
+      * (* the writer is no Flusher: nothing happens *)
+        rewrite tw_flush_noflusher. rewrite orb_false_r.
+        destruct (IH false h0 b Hb Hc) as [I1 I2]. split; [exact I1|]. exact I2.
+Qed.
+
+Lemma script_panic_spec fl h0 acts : snd (href (start fl h0) acts) = spec_panic fl false acts.
+Proof. apply (href_unflushed acts fl h0 buf0); reflexivity. Qed.
+
+Lemma info_first_no_infos : forall acts fl h0 m,
+  info_first fl acts = false -> spec_infos fl h0 m acts = [].
+Proof.
+  induction acts as [|a acts IH]; intros fl h0 m H; [reflexivity|].
+  destruct a; cbn in *; try (apply IH; exact H); try reflexivity.
+  - rewrite H. reflexivity.
+  - destruct fl; [reflexivity|apply IH; exact H].
+Qed.
+
+(* the client's view of the complete response is the independent description *)
+Lemma complete_view_spec fl h0 acts :
+  spec_panic fl false acts = None -> info_first fl acts = false ->
+  rw_view (complete fl h0 acts) = spec_view fl h0 acts.
+Proof.
+  intros Hn Hi. unfold complete, spec_view, spec_frozen, spec_hdrs, start. cbv zeta.
+  destruct (href_unflushed acts fl h0 buf0 eq_refl ltac:(reflexivity)) as [_ H].
+  cbn [bwrote buf0] in H. rewrite (H Hn Hi). rewrite (info_first_no_infos _ _ _ _ Hi). reflexivity.
+Qed.
+
+Lemma before_flush_noflush : forall acts, has_flush acts = false -> before_flush acts = acts.
+Proof.
+  induction acts as [|a acts IH]; intros H; [reflexivity|].
+  unfold has_flush in *. destruct a; cbn in *; try (f_equal; apply IH; exact H). discriminate.
+Qed.
+
+Lemma spec_status_noflush : forall acts fl, has_flush acts = false -> spec_status fl acts = spec_status false acts.
+Proof.
+  induction acts as [|a acts IH]; intros fl H; [reflexivity|].
+  unfold has_flush in *. destruct a; cbn in *; try (apply IH; exact H); try reflexivity.
+  - rewrite (IH fl H). reflexivity.
+  - discriminate.
+Qed.
+
+Lemma flush_rfl b w : rfl (flush b w) = rfl w.
+Proof.
+  unfold flush. rewrite rw_write_rfl. destruct (_ || _); [reflexivity|]. rewrite rw_wh_rfl. reflexivity.
+Qed.
+
+Lemma flush_unfrozen_live b w c hs :
+  rres w = None -> rres (flush b w) = Some (c, hs) -> hs = rlive (flush b w).
+Proof.
+  intros Hr. unfold flush.
+  destruct (_ || _).
+  - unfold rw_write, rw_wh, rw_hdr. cbn. rewrite Hr. cbn. intros H; inversion H; reflexivity.
+  - unfold rw_write, rw_wh, rw_hdr. cbn. rewrite Hr.
+    destruct (is_info (bcode b)); cbn; intros H; inversion H; reflexivity.
+Qed.
+
+(* without an effective Flush the whole real writer (live header map included) is described *)
+Lemma complete_spec fl h0 acts :
+  fl = false \/ has_flush acts = false ->
+  spec_panic fl false acts = None -> info_first fl acts = false ->
+  complete fl h0 acts = spec_complete fl h0 acts.
+Proof.
+  intros Hf Hn Hi.
+  pose proof (complete_view_spec fl h0 acts Hn Hi) as V.
+  assert (Hw : snd (fst (href (start fl h0) acts)) = rw_fresh fl h0).
+  { apply (href_rw_untouched acts (start fl h0)). destruct Hf as [Hf|Hf]; [left; exact Hf|right; exact Hf]. }
+  unfold complete in *. cbv zeta in *. rewrite Hw in *.
+  set (b := fst (fst (href (start fl h0) acts))) in *.
+  assert (Hl : forall c hs, rres (flush b (rw_fresh fl h0)) = Some (c, hs) -> hs = rlive (flush b (rw_fresh fl h0))).
+  { intros c hs. apply flush_unfrozen_live. reflexivity. }
+  pose proof (flush_rfl b (rw_fresh fl h0)) as Hfl.
+  unfold rw_view, spec_view, spec_frozen in V.
+  destruct (flush b (rw_fresh fl h0)) as [f l r bd inf]. cbn in *.
+  inversion V; subst. clear V.
+  rewrite <- (Hl _ _ eq_refl).
+  unfold spec_complete.
+  assert (E1 : (if fl then before_flush acts else acts) = acts).
+  { destruct Hf as [->|Hf]; [reflexivity|]. destruct fl; [apply before_flush_noflush, Hf|reflexivity]. }
+  assert (E2 : spec_status fl acts = spec_status false acts).
+  { destruct Hf as [->|Hf]; [reflexivity|apply spec_status_noflush, Hf]. }
+  rewrite E1, E2, (info_first_no_infos _ _ _ _ Hi). reflexivity.
 Qed.
 
 (* ------------------------------------------------------------------ *)
@@ -105,36 +341,44 @@ Proof.
   right. split; [discriminate|exact H].
 Qed.
 
-Definition InvA (s : state) : Prop :=
-  tto s = false -> href buf0 (hexec s) = (tb s, panic_of (hst s)).
+Lemma cut_prefix script ex d : cut script ex d -> exists rest, script = ex ++ rest.
+Proof. intros (rest & E & _). exists rest. exact E. Qed.
 
-Definition InvB (script : list act) (s : state) : Prop :=
+Section Inv.
+Variables (fl : bool) (h0 : hdrs) (script : list act).
+
+(* while not timed out, the timeoutWriter and the panic state are those of the reference run *)
+Definition InvA (s : state) : Prop :=
+  tto s = false ->
+  fst (fst (href (start fl h0) (hexec s))) = tb s /\
+  snd (href (start fl h0) (hexec s)) = panic_of (hst s).
+
+Definition InvB (s : state) : Prop :=
   match hst s with
   | HRun => script = hexec s ++ hrest s \/ (hrest s = [] /\ cut script (hexec s) (dk s))
   | HDone => cut script (hexec s) (dk s)
   | HPanicked _ => exists rest, script = hexec s ++ rest
   end.
 
-Definition InvC (h0 : hdrs) (s : state) : Prop :=
+Definition InvC (s : state) : Prop :=
   match sst s with
-  | SWait => tto s = false /\ rw s = rw_fresh h0
-  | SDoneRet => tto s = false /\ hst s = HDone /\ rw s = complete h0 (hexec s)
-  | STimeoutRet k => tto s = true /\ dk s = Some k /\ rw s = timeout_resp h0 k
-  | SPanicRet p => tto s = false /\ hst s = HPanicked p /\ rw s = rw_fresh h0
+  | SWait => tto s = false /\ rw s = committed fl h0 (hexec s)
+  | SDoneRet => tto s = false /\ hst s = HDone /\ rw s = complete fl h0 (hexec s)
+  | STimeoutRet k =>
+    tto s = true /\ dk s = Some k /\ rw s = timeout_write k (committed fl h0 (sexec s)) /\
+    exists post, hexec s = sexec s ++ post
+  | SPanicRet p => tto s = false /\ hst s = HPanicked p /\ rw s = committed fl h0 (hexec s)
   end.
 
-Definition Inv (h0 : hdrs) (script : list act) (s : state) : Prop :=
-  InvA s /\ InvB script s /\ InvC h0 s.
+Definition Inv (s : state) : Prop := InvA s /\ InvB s /\ InvC s.
 
-Lemma inv_init h0 script : Inv h0 script (init h0 script).
-Proof.
-  repeat split; cbn; auto.
-Qed.
+Lemma inv_init : Inv (init fl h0 script).
+Proof. repeat split; cbn; auto. Qed.
 
-Lemma inv_d h0 script s k : Inv h0 script s -> Inv h0 script (d_step k s).
+Lemma inv_d s k : Inv s -> Inv (d_step k s).
 Proof.
-  intros (A & B & C). unfold d_step. destruct (dk s) eqn:Ed; [repeat split; assumption|].
-  repeat split.
+  intros (A & B & C). unfold d_step. destruct (dk s) eqn:Ed; [exact (conj A (conj B C))|].
+  split; [|split].
   - exact A.
   - unfold InvB in *. cbn. destruct (hst s); auto.
     + destruct B as [B|[B1 B2]]; [left; exact B|right; split; [exact B1|]].
@@ -144,7 +388,7 @@ Proof.
     destruct C as (_ & C & _). congruence.
 Qed.
 
-Lemma inv_s h0 script s b s' : Inv h0 script s -> s_step b s = Some s' -> Inv h0 script s'.
+Lemma inv_s s b s' : Inv s -> s_step b s = Some s' -> Inv s'.
 Proof.
   intros (A & B & C) H. unfold s_step in H.
   destruct (sst s) eqn:Es; try discriminate.
@@ -161,75 +405,103 @@ Proof.
     + cbn. exact A.
     + cbn. exact B.
     + cbn. split; [exact C1|]. split; [reflexivity|].
-      rewrite C2. unfold complete. rewrite (A C1). reflexivity.
+      rewrite C2. unfold complete, committed. cbv zeta. rewrite (proj1 (A C1)). reflexivity.
   - destruct (dk s) eqn:Ed; try discriminate. inversion H; subst s'; clear H.
     split; [|split].
     + cbn. discriminate.
     + cbn. exact B.
-    + cbn. split; [reflexivity|]. split; [reflexivity|]. rewrite C2. apply timeout_write_fresh.
+    + cbn. split; [reflexivity|]. split; [reflexivity|]. split; [rewrite C2; reflexivity|].
+      exists []. rewrite app_nil_r. reflexivity.
 Qed.
 
-Lemma invC_h h0 s s' :
-  InvC h0 s -> hst s = HRun ->
-  tto s' = tto s -> rw s' = rw s -> dk s' = dk s -> sst s' = sst s ->
-  InvC h0 s'.
-Proof.
-  unfold InvC. intros C Eh E1 E2 E3 E4. rewrite E4, E1, E2, E3.
-  destruct (sst s); auto; destruct C as (_ & C & _); congruence.
-Qed.
+Lemma href_pair bw0 ex (b : tbuf) (w : rwriter) p :
+  fst (fst (href bw0 ex)) = b -> snd (fst (href bw0 ex)) = w -> snd (href bw0 ex) = p ->
+  href bw0 ex = ((b, w), p).
+Proof. destruct (href bw0 ex) as [[b' w'] p']. cbn. intros -> -> ->. reflexivity. Qed.
 
-Lemma inv_h h0 script s s' r : Inv h0 script s -> h_step s = Some (s', r) -> Inv h0 script s'.
+Lemma inv_h s s' r : Inv s -> h_step s = Some (s', r) -> Inv s'.
 Proof.
-  intros (A & B & C) H. unfold h_step in H.
+  intros (A & B & C) H. unfold h_step in H. unfold InvA in A. unfold InvB in B.
   destruct (hst s) eqn:Eh; try discriminate.
-  unfold InvB in B. rewrite Eh in B.
+  (* the handler is running, so ServeHTTP either waits or has timed out *)
+  assert (Cw : (sst s = SWait /\ tto s = false /\ rw s = committed fl h0 (hexec s)) \/
+               (exists k post, sst s = STimeoutRet k /\ tto s = true /\ dk s = Some k /\
+                               rw s = timeout_write k (committed fl h0 (sexec s)) /\
+                               hexec s = sexec s ++ post)).
+  { unfold InvC in C. destruct (sst s) eqn:Es.
+    - left. tauto.
+    - destruct C as (_ & C & _). congruence.
+    - right. destruct C as (C1 & C2 & C3 & post & C4). exists k, post. tauto.
+    - destruct C as (_ & C & _). congruence. }
   destruct (hrest s) as [|a rest] eqn:Er.
   - (* the handler returns *)
-    inversion H; subst s' r; clear H. repeat split.
-    + intros T. cbn in *. rewrite (A T), Eh. reflexivity.
+    inversion H; subst s' r; clear H. split; [|split].
+    + unfold InvA. cbn. intros T. exact (A T).
     + unfold InvB. cbn. destruct B as [B|[_ B]]; [|exact B].
       exists []. split; [exact B|left; reflexivity].
-    + eapply invC_h; eauto.
+    + unfold InvC in *. cbn. destruct (sst s); auto.
+      * destruct C as (_ & C & _). congruence.
+      * destruct C as (_ & C & _). congruence.
   - assert (B' : script = hexec s ++ a :: rest) by (destruct B as [B|[B _]]; [exact B|discriminate]).
     assert (B'' : script = (hexec s ++ [a]) ++ rest) by (rewrite <- app_assoc; exact B').
-    assert (Hgen : forall b' res, tw_act (tto s) (tb s) a = (b', res) ->
-              forall s1,
-              s1 = match res with
-                   | RPanic p => mkSt b' (tto s) (rw s) (HPanicked p) [] (hexec s ++ [a]) (dk s) (sst s)
-                   | _ => mkSt b' (tto s) (rw s) HRun rest (hexec s ++ [a]) (dk s) (sst s)
-                   end -> Inv h0 script s1).
-    { intros b' res Et s1 ->.
-      assert (HA : tto s = false ->
-                   href buf0 (hexec s ++ [a]) =
-                   (b', match res with RPanic p => Some p | _ => None end)).
-      { intros T'. specialize (A T'). rewrite Eh in A. cbn in A.
-        rewrite (href_snoc _ _ a _ A). rewrite T' in Et. rewrite Et. reflexivity. }
-      destruct res;
-        (split; [unfold InvA; cbn; intros T; exact (HA T)
-                |split; [unfold InvB; cbn; first [left; exact B''|exists rest; exact B'']
-                        |eapply invC_h; [exact C|exact Eh|reflexivity..]]]). }
-    revert H.
-    destruct a as [k v|k v|k|c|bs| |p];
-      try (destruct (tw_act (tto s) (tb s) _) as [b' res] eqn:Et; intros H;
-           eapply (Hgen b' res eq_refl); destruct res; inversion H; reflexivity).
-    intros H.
+    (* what a step does to the invariant, given the new buffer/writer and status *)
+    assert (Hgen : forall b' w' res hs' rest',
+              hact (tto s) (tb s, rw s) a = ((b', w'), res) ->
+              hs' = match res with RPanic p => HPanicked p | _ => HRun end ->
+              (match res with RPanic _ => True | _ => rest' = rest end) ->
+              Inv (mkSt b' (tto s) w' hs' rest' (hexec s ++ [a]) (dk s) (sst s) (sexec s))).
+    { intros b' w' res hs' rest' Ea -> Hr.
+      destruct Cw as [(Es & T & R)|(k & post & Es & T & Ed & R & P)].
+      - (* not timed out: one more step of the reference run *)
+        destruct (A T) as [A1 A2]. cbn in A2.
+        assert (HR : href (start fl h0) (hexec s) = ((tb s, rw s), None)).
+        { apply href_pair; auto. }
+        pose proof (href_snoc _ _ a _ HR) as Hs. rewrite T in Ea. rewrite Ea in Hs. cbn in Hs.
+        split; [|split].
+        + unfold InvA. cbn. intros _. rewrite Hs. cbn. split; [reflexivity|].
+          destruct res; reflexivity.
+        + unfold InvB. cbn. destruct res; try (left; rewrite Hr; exact B''). exists rest. exact B''.
+        + unfold InvC. cbn. rewrite Es. split; [exact T|]. unfold committed. rewrite Hs. reflexivity.
+      - (* timed out: the real writer is out of reach *)
+        assert (Ew : w' = rw s).
+        { rewrite T in Ea. pose proof (hact_timedout_rw (tb s, rw s) a) as Hw. rewrite Ea in Hw. exact Hw. }
+        split; [|split].
+        + unfold InvA. cbn. congruence.
+        + unfold InvB. cbn. destruct res; try (left; rewrite Hr; exact B''). exists rest. exact B''.
+        + unfold InvC. cbn. rewrite Es. split; [exact T|]. split; [exact Ed|]. split; [congruence|].
+          exists (post ++ [a]). rewrite P, app_assoc. reflexivity. }
+    destruct a as [k v|k v|k|c|bs| |p| ];
+      [ | | | | |shelve| | ];
+      (destruct (hact (tto s) (tb s, rw s) _) as [[b' w'] res] eqn:Ea;
+           destruct res; inversion H; subst s' r; clear H;
+           (eapply (Hgen _ _ _ _ _ eq_refl); [reflexivity|exact I || reflexivity])).
+    Unshelve.
     (* the context check *)
-    assert (HA : tto s = false -> href buf0 (hexec s ++ [ACheckCtx]) = (tb s, None)).
-    { intros T. specialize (A T). rewrite Eh in A. cbn in A.
-      rewrite (href_snoc _ _ ACheckCtx _ A). reflexivity. }
+    pose proof (hact_check (tto s) (tb s, rw s)) as Ea.
     destruct (dk s) eqn:Ed; inversion H; subst s' r; clear H.
-    + split; [|split].
-      * unfold InvA; cbn. exact HA.
-      * unfold InvB; cbn. right. split; [reflexivity|].
-        exists rest. split; [exact B''|]. right. split; [congruence|]. exists (hexec s). reflexivity.
-      * eapply invC_h; [exact C|exact Eh|cbn; congruence..].
-    + split; [|split].
-      * unfold InvA; cbn. exact HA.
-      * unfold InvB; cbn. left. exact B''.
-      * eapply invC_h; [exact C|exact Eh|cbn; congruence..].
+    + (* it saw Done: the handler returns early *)
+      pose proof (Hgen (tb s) (rw s) RNone HRun [] Ea eq_refl) as G.
+      (* Hgen wants rest' = rest; redo the InvB part by hand *)
+      clear G.
+      destruct Cw as [(Es & T & R)|(k' & post & Es & T & Ed' & R & P)].
+      * destruct (A T) as [A1 A2]. cbn in A2.
+        assert (HR : href (start fl h0) (hexec s) = ((tb s, rw s), None)) by (apply href_pair; auto).
+        pose proof (href_snoc _ _ ACheckCtx _ HR) as Hs. rewrite hact_check in Hs. cbn in Hs.
+        split; [|split].
+        -- unfold InvA. cbn. intros _. rewrite Hs. split; reflexivity.
+        -- unfold InvB. cbn. right. split; [reflexivity|].
+           exists rest. split; [exact B''|]. right. split; [discriminate|]. exists (hexec s). reflexivity.
+        -- unfold InvC. cbn. rewrite Es. split; [exact T|]. unfold committed. rewrite Hs. reflexivity.
+      * split; [|split].
+        -- unfold InvA. cbn. congruence.
+        -- unfold InvB. cbn. right. split; [reflexivity|].
+           exists rest. split; [exact B''|]. right. split; [discriminate|]. exists (hexec s). reflexivity.
+        -- unfold InvC. cbn. rewrite Es. split; [exact T|]. split; [congruence|]. split; [exact R|].
+           exists (post ++ [ACheckCtx]). rewrite P, app_assoc. reflexivity.
+    + pose proof (Hgen (tb s) (rw s) RNone HRun rest Ea eq_refl eq_refl) as G. exact G.
 Qed.
 
-Lemma inv_step h0 script s e : Inv h0 script s -> Inv h0 script (stepT s e).
+Lemma inv_step s e : Inv s -> Inv (stepT s e).
 Proof.
   intros I. unfold stepT, step. destruct e as [|k|b].
   - destruct (h_step s) as [[s' r]|] eqn:E; [eapply inv_h; eauto|exact I].
@@ -237,53 +509,118 @@ Proof.
   - destruct (s_step b s) as [s'|] eqn:E; [eapply inv_s; eauto|exact I].
 Qed.
 
-Lemma inv_run h0 script sched : forall s, Inv h0 script s -> Inv h0 script (run s sched).
+Lemma inv_run sched : forall s, Inv s -> Inv (run s sched).
 Proof.
   induction sched as [|e sched IH]; intros s I; cbn; [exact I|].
   apply IH, inv_step, I.
 Qed.
 
-Lemma inv_reach h0 script sched : Inv h0 script (run (init h0 script) sched).
+Lemma inv_reach sched : Inv (run (init fl h0 script) sched).
 Proof. apply inv_run, inv_init. Qed.
+
+End Inv.
 
 (* ------------------------------------------------------------------ *)
 (* all-or-nothing                                                       *)
 
-(* what the caller of ServeHTTP and the client can see *)
-Inductive outcome (h0 : hdrs) (script : list act) (s : state) : Prop :=
-| OutPending :        (* ServeHTTP still in its select: nothing written *)
-    sst s = SWait -> rw s = rw_fresh h0 -> outcome h0 script s
+(* What the caller of ServeHTTP and the client can see.  [committed fl h0 ex] is what
+   the handler's own Flush calls passed to the client while running [ex]; it is the
+   fresh writer unless the handler flushed through a Flusher-capable writer
+   ([committed_untouched]). *)
+Inductive outcome (fl : bool) (h0 : hdrs) (script : list act) (s : state) : Prop :=
+| OutPending :        (* ServeHTTP still in its select: only what the handler flushed itself *)
+    sst s = SWait -> rw s = committed fl h0 (hexec s) -> outcome fl h0 script s
 | OutComplete ex :    (* the handler returned after running [ex]; its whole response, nothing else *)
     sst s = SDoneRet -> hst s = HDone -> hexec s = ex -> cut script ex (dk s) ->
-    spec_panic false ex = None ->
-    rw s = complete h0 ex -> rw s = spec_complete h0 ex -> outcome h0 script s
-| OutTimeout k :      (* the Done event happened: 503 / 499 and nothing of the handler *)
-    sst s = STimeoutRet k -> dk s = Some k -> rw s = timeout_resp h0 k -> outcome h0 script s
-| OutPanic p :        (* the handler's panic re-raised in the serving goroutine, nothing written *)
-    sst s = SPanicRet p -> spec_panic false script = Some p -> rw s = rw_fresh h0 ->
-    outcome h0 script s.
+    spec_panic fl false ex = None ->
+    rw s = complete fl h0 ex -> outcome fl h0 script s
+| OutTimeout k pre :  (* the Done event happened: 503 / 499 on top of what was flushed before, nothing later *)
+    sst s = STimeoutRet k -> dk s = Some k ->
+    (exists post, script = pre ++ post) ->
+    rw s = timeout_write k (committed fl h0 pre) -> outcome fl h0 script s
+| OutPanic p :        (* the handler's panic re-raised in the serving goroutine *)
+    sst s = SPanicRet p -> spec_panic fl false script = Some p ->
+    rw s = committed fl h0 (hexec s) -> outcome fl h0 script s.
 
-Lemma inv_outcome h0 script s : Inv h0 script s -> outcome h0 script s.
+Lemma invB_prefix script s : InvB script s -> exists rest, script = hexec s ++ rest.
+Proof.
+  unfold InvB. destruct (hst s).
+  - intros [B|[_ B]]; [eexists; exact B|apply cut_prefix in B; exact B].
+  - apply cut_prefix.
+  - auto.
+Qed.
+
+Lemma inv_outcome fl h0 script s : Inv fl h0 script s -> outcome fl h0 script s.
 Proof.
   intros (A & B & C). unfold InvC in C. destruct (sst s) eqn:Es.
   - destruct C. apply OutPending; auto.
   - destruct C as (T & Eh & R).
-    specialize (A T). rewrite Eh in A. cbn in A.
+    destruct (A T) as [_ A2]. rewrite Eh in A2. cbn in A2.
     unfold InvB in B. rewrite Eh in B.
-    assert (Hp : spec_panic false (hexec s) = None).
-    { rewrite <- script_panic_spec, A. reflexivity. }
-    eapply OutComplete; eauto. rewrite R. apply complete_spec, Hp.
-  - destruct C as (T & Ed & R). eapply OutTimeout; eauto.
+    assert (Hp : spec_panic fl false (hexec s) = None).
+    { rewrite <- (script_panic_spec fl h0). exact A2. }
+    eapply OutComplete; eauto.
+  - destruct C as (T & Ed & R & post & P).
+    destruct (invB_prefix _ _ B) as [rest Hr].
+    eapply (OutTimeout _ _ _ _ k (sexec s)); eauto.
+    exists (post ++ rest). rewrite Hr, P, app_assoc. reflexivity.
   - destruct C as (T & Eh & R).
-    specialize (A T). rewrite Eh in A. cbn in A.
+    destruct (A T) as [_ A2]. rewrite Eh in A2. cbn in A2.
     unfold InvB in B. rewrite Eh in B. destruct B as [rest B].
     eapply OutPanic; eauto.
-    rewrite <- script_panic_spec, B, href_app, A. reflexivity.
+    rewrite <- (script_panic_spec fl h0), B, href_app.
+    destruct (href (start fl h0) (hexec s)) as [bw o]. cbn in A2. subst o. reflexivity.
 Qed.
 
-Lemma all_or_nothing_lemma h0 script sched :
-  outcome h0 script (run (init h0 script) sched).
+Lemma all_or_nothing_flush_lemma fl h0 script sched :
+  outcome fl h0 script (run (init fl h0 script) sched).
 Proof. apply inv_outcome, inv_reach. Qed.
+
+(* the strict form: when the handler cannot flush through (the writer is no Flusher,
+   or the script never calls Flush), nothing at all reaches the client before the
+   outcome is decided, and the timeout reply stands alone *)
+Inductive outcome_strict (fl : bool) (h0 : hdrs) (script : list act) (s : state) : Prop :=
+| SOutPending : sst s = SWait -> rw s = rw_fresh fl h0 -> outcome_strict fl h0 script s
+| SOutComplete ex :
+    sst s = SDoneRet -> hst s = HDone -> hexec s = ex -> cut script ex (dk s) ->
+    spec_panic fl false ex = None ->
+    rw s = complete fl h0 ex ->
+    (info_first fl ex = false -> rw s = spec_complete fl h0 ex) ->
+    outcome_strict fl h0 script s
+| SOutTimeout k :
+    sst s = STimeoutRet k -> dk s = Some k -> rw s = timeout_resp fl h0 k -> outcome_strict fl h0 script s
+| SOutPanic p :
+    sst s = SPanicRet p -> spec_panic fl false script = Some p -> rw s = rw_fresh fl h0 ->
+    outcome_strict fl h0 script s.
+
+Lemma has_flush_prefix a b : has_flush (a ++ b) = false -> has_flush a = false.
+Proof. rewrite has_flush_app. intros H. apply orb_false_iff in H. apply H. Qed.
+
+Lemma no_flush_prefix fl script pre post :
+  fl = false \/ has_flush script = false -> script = pre ++ post ->
+  fl = false \/ has_flush pre = false.
+Proof.
+  intros [H|H] E; [left; exact H|right]. rewrite E in H. eapply has_flush_prefix, H.
+Qed.
+
+Lemma all_or_nothing_lemma fl h0 script sched :
+  fl = false \/ has_flush script = false ->
+  outcome_strict fl h0 script (run (init fl h0 script) sched).
+Proof.
+  intros Hf.
+  pose proof (inv_reach fl h0 script sched) as I.
+  destruct (invB_prefix _ _ (proj1 (proj2 I))) as [rest Hr].
+  destruct (inv_outcome _ _ _ _ I) as [E1 E2|ex E1 E2 E3 E4 E5 E6|k pre E1 E2 [post E3] E4|p E1 E2 E3].
+  - apply SOutPending; [exact E1|]. rewrite E2. apply committed_untouched.
+    eapply no_flush_prefix; eauto.
+  - assert (Hx : fl = false \/ has_flush ex = false).
+    { destruct (cut_prefix _ _ _ E4) as [r' Hr']. eapply no_flush_prefix; eauto. }
+    eapply SOutComplete; eauto. intros Hi. rewrite E6. apply complete_spec; auto.
+  - apply (SOutTimeout _ _ _ _ k); auto. rewrite E4, committed_untouched.
+    + apply timeout_write_fresh.
+    + eapply no_flush_prefix; eauto.
+  - eapply SOutPanic; eauto. rewrite E3. apply committed_untouched. eapply no_flush_prefix; eauto.
+Qed.
 
 (* a script without context checks is always run to its end *)
 Definition ignores_ctx (script : list act) : Prop := ~ In ACheckCtx script.
@@ -303,22 +640,30 @@ Proof.
 Qed.
 
 Lemma h_step_frame s s' r : h_step s = Some (s', r) ->
-  dk s' = dk s /\ rw s' = rw s /\ sst s' = sst s /\ tto s' = tto s.
+  dk s' = dk s /\ sst s' = sst s /\ tto s' = tto s /\ sexec s' = sexec s /\
+  (tto s = true \/ rfl (rw s) = false \/ (forall r', hrest s <> AFlush :: r') -> rw s' = rw s).
 Proof.
   unfold h_step. destruct (hst s); try discriminate.
   destruct (hrest s) as [|a rest].
-  - intros H; inversion H; subst; cbn; auto.
-  - destruct a;
-      try (destruct (tw_act (tto s) (tb s) _) as [b' res]; destruct res;
-           intros H; inversion H; subst; cbn; auto).
-    destruct (dk s) eqn:Ed; intros H; inversion H; subst; cbn; auto.
+  - intros H; inversion H; subst; cbn; repeat (split; [reflexivity|]); auto.
+  - assert (Hw : tto s = true \/ rfl (rw s) = false \/ (forall r', a :: rest <> AFlush :: r') ->
+                 snd (fst (hact (tto s) (tb s, rw s) a)) = rw s).
+    { intros [T|[F|N]].
+      - rewrite T. apply hact_timedout_rw.
+      - apply (hact_noflusher_rw (tto s) (tb s, rw s) a F).
+      - apply (hact_notflush_rw (tto s) (tb s, rw s) a). intros ->. apply (N rest). reflexivity. }
+    destruct a;
+      try solve [destruct (hact (tto s) (tb s, rw s) _) as [[b' w'] res]; cbn in Hw; destruct res;
+                 intros H; inversion H; subst; cbn; repeat (split; [reflexivity|]); auto].
+    destruct (dk s) eqn:Ed; intros H; inversion H; subst; cbn; repeat (split; [reflexivity|]); auto.
 Qed.
 
 Lemma stepT_H_frame s :
-  dk (stepT s EH) = dk s /\ rw (stepT s EH) = rw s /\ sst (stepT s EH) = sst s.
+  dk (stepT s EH) = dk s /\ sst (stepT s EH) = sst s /\
+  (tto s = true \/ rfl (rw s) = false \/ (forall r', hrest s <> AFlush :: r') -> rw (stepT s EH) = rw s).
 Proof.
   unfold stepT, step. destruct (h_step s) as [[s' r]|] eqn:E; auto.
-  destruct (h_step_frame _ _ _ E) as (H1 & H2 & H3 & _). auto.
+  destruct (h_step_frame _ _ _ E) as (H1 & H2 & _ & _ & H5). auto.
 Qed.
 
 (* D never happens: no ED event in the schedule *)
@@ -341,63 +686,94 @@ Qed.
 (* ------------------------------------------------------------------ *)
 (* nothing after the timeout                                            *)
 
-Lemma step_after_return s e :
-  sst s <> SWait -> sst (stepT s e) = sst s /\ rw (stepT s e) = rw s.
+(* H and D never touch the real writer once timed out, nor when the writer is no
+   Flusher, nor with any action but Flush *)
+Lemma only_S_and_flush_write s e :
+  (forall b, e <> ES b) ->
+  tto s = true \/ rfl (rw s) = false \/ (forall r', hrest s <> AFlush :: r') ->
+  rw (stepT s e) = rw s.
 Proof.
-  intros Hs. unfold stepT, step. destruct e as [|k|b].
-  - destruct (stepT_H_frame s) as (_ & E1 & E2). unfold stepT, step in E1, E2. auto.
-  - unfold d_step. destruct (dk s); auto.
-  - unfold s_step. destruct (sst s) eqn:Es; cbn; auto. congruence.
-Qed.
-
-Lemma run_after_return : forall sched s,
-  sst s <> SWait -> sst (run s sched) = sst s /\ rw (run s sched) = rw s.
-Proof.
-  induction sched as [|e sched IH]; intros s Hs; cbn; [auto|].
-  destruct (step_after_return s e Hs) as [E1 E2].
-  assert (Hs' : sst (stepT s e) <> SWait) by (rewrite E1; exact Hs).
-  destruct (IH (stepT s e) Hs') as [E3 E4].
-  split; [rewrite <- E1; exact E3|rewrite <- E2; exact E4].
-Qed.
-
-(* H and D never touch the real writer, at any time *)
-Lemma only_S_writes s e : (forall b, e <> ES b) -> rw (stepT s e) = rw s.
-Proof.
-  intros He. unfold stepT, step. destruct e as [|k|b].
-  - destruct (stepT_H_frame s) as (_ & E1 & _). unfold stepT, step in E1. exact E1.
-  - unfold d_step. destruct (dk s); auto.
+  intros He Hc. destruct e as [|k|b].
+  - destruct (stepT_H_frame s) as (_ & _ & E). apply E, Hc.
+  - unfold stepT, step, d_step. destruct (dk s); auto.
   - exfalso. apply (He b). reflexivity.
 Qed.
 
-Lemma late_write_refused h0 script sched k bs r :
-  let s := run (init h0 script) sched in
+Lemma tto_after_return fl h0 script s : Inv fl h0 script s -> sst s <> SWait ->
+  tto s = true \/ hst s <> HRun.
+Proof.
+  intros (_ & _ & C) Hs. unfold InvC in C. destruct (sst s); try congruence.
+  - right. destruct C as (_ & C & _). congruence.
+  - left. apply C.
+  - right. destruct C as (_ & C & _). congruence.
+Qed.
+
+Lemma step_after_return fl h0 script s e :
+  Inv fl h0 script s -> sst s <> SWait -> sst (stepT s e) = sst s /\ rw (stepT s e) = rw s.
+Proof.
+  intros I Hs. destruct e as [|k|b].
+  - destruct (tto_after_return _ _ _ _ I Hs) as [T|Hh].
+    + destruct (stepT_H_frame s) as (_ & E1 & E2). split; [exact E1|apply E2; left; exact T].
+    + unfold stepT, step, h_step. destruct (hst s); try congruence; auto.
+  - unfold stepT, step, d_step. destruct (dk s); auto.
+  - unfold stepT, step, s_step. destruct (sst s) eqn:Es; cbn; auto. congruence.
+Qed.
+
+Lemma run_after_return fl h0 script : forall sched s,
+  Inv fl h0 script s -> sst s <> SWait -> sst (run s sched) = sst s /\ rw (run s sched) = rw s.
+Proof.
+  induction sched as [|e sched IH]; intros s I Hs; cbn; [auto|].
+  destruct (step_after_return _ _ _ s e I Hs) as [E1 E2].
+  assert (Hs' : sst (stepT s e) <> SWait) by (rewrite E1; exact Hs).
+  destruct (IH (stepT s e) (inv_step _ _ _ _ e I) Hs') as [E3 E4].
+  split; [rewrite <- E1; exact E3|rewrite <- E2; exact E4].
+Qed.
+
+Lemma late_write_refused fl h0 script sched k bs r :
+  let s := run (init fl h0 script) sched in
   sst s = STimeoutRet k -> hst s = HRun -> hrest s = AWrite bs :: r ->
   exists s', step s EH = Some (s', RWriteTimeout) /\ rw s' = rw s /\ tb s' = tb s.
 Proof.
   intros s Hs Hh Hr.
-  destruct (inv_reach h0 script sched) as (_ & _ & C). fold s in C.
+  destruct (inv_reach fl h0 script sched) as (_ & _ & C). fold s in C.
   unfold InvC in C. rewrite Hs in C. destruct C as (T & _).
-  cbn [step]. unfold h_step. rewrite Hh, Hr. cbn [tw_act]. rewrite T.
+  cbn [step]. unfold h_step. rewrite Hh, Hr. cbn [hact tw_act fst snd]. rewrite T.
   eexists. split; [reflexivity|]. split; reflexivity.
+Qed.
+
+(* a Flush issued after the timeout does nothing at all *)
+Lemma late_flush_ignored fl h0 script sched k r :
+  let s := run (init fl h0 script) sched in
+  sst s = STimeoutRet k -> hst s = HRun -> hrest s = AFlush :: r ->
+  exists s', step s EH = Some (s', RNone) /\ rw s' = rw s /\ tb s' = tb s.
+Proof.
+  intros s Hs Hh Hr.
+  destruct (inv_reach fl h0 script sched) as (_ & _ & C). fold s in C.
+  unfold InvC in C. rewrite Hs in C. destruct C as (T & _).
+  cbn [step]. unfold h_step. rewrite Hh, Hr. cbn [hact fst snd]. rewrite T.
+  unfold tw_flush. destruct (negb (rfl (rw s))); cbn; eexists; (split; [reflexivity|split; reflexivity]).
 Qed.
 
 (* ------------------------------------------------------------------ *)
 (* returns at the deadline                                              *)
 
-Lemma returns_at_deadline_lemma h0 script sched k :
-  let s := run (init h0 script) sched in
+Lemma returns_at_deadline_lemma fl h0 script sched k :
+  let s := run (init fl h0 script) sched in
   dk s = Some k -> sst s = SWait ->
   exists s', step s (ES BTimeout) = Some (s', RNone) /\
-             sst s' = STimeoutRet k /\ rw s' = timeout_resp h0 k /\
+             sst s' = STimeoutRet k /\ rw s' = timeout_write k (committed fl h0 (hexec s)) /\
+             (fl = false \/ has_flush script = false -> rw s' = timeout_resp fl h0 k) /\
              hst s' = hst s /\ hrest s' = hrest s /\ hexec s' = hexec s.
 Proof.
   intros s Hd Hs.
-  destruct (inv_reach h0 script sched) as (_ & _ & C). fold s in C.
+  pose proof (inv_reach fl h0 script sched) as I. fold s in I.
+  destruct I as (_ & B & C).
   unfold InvC in C. rewrite Hs in C. destruct C as (_ & R).
   cbn [step]. unfold s_step. rewrite Hs, Hd.
-  eexists. split; [reflexivity|]. cbn. rewrite R. repeat split; reflexivity.
+  eexists. split; [reflexivity|]. cbn. rewrite R. repeat split; try reflexivity.
+  intros Hf. destruct (invB_prefix _ _ B) as [rest Hr].
+  rewrite committed_untouched; [apply timeout_write_fresh|]. eapply no_flush_prefix; eauto.
 Qed.
-
 (* ------------------------------------------------------------------ *)
 (* deadlines                                                            *)
 
@@ -485,18 +861,18 @@ Qed.
 (* ------------------------------------------------------------------ *)
 (* exempt requests: the handler runs against the real writer            *)
 
-Definition XInv (h0 : hdrs) (script : list act) (s : xstate) : Prop :=
-  xrw s = direct h0 (xexec s) /\
+Definition XInv (fl : bool) (h0 : hdrs) (script : list act) (s : xstate) : Prop :=
+  xrw s = direct fl h0 (xexec s) /\
   match xhst s with
   | HRun => script = xexec s ++ xrest s \/ (xrest s = [] /\ cut script (xexec s) (xdk s))
   | HDone => cut script (xexec s) (xdk s)
   | HPanicked _ => exists rest, script = xexec s ++ rest
   end.
 
-Lemma direct_snoc h0 ex a : direct h0 (ex ++ [a]) = fst (rw_act (direct h0 ex) a).
+Lemma direct_snoc fl h0 ex a : direct fl h0 (ex ++ [a]) = fst (rw_act (direct fl h0 ex) a).
 Proof. unfold direct. rewrite fold_left_app. reflexivity. Qed.
 
-Lemma xinv_step h0 script s e : XInv h0 script s -> XInv h0 script (xstepT s e).
+Lemma xinv_step fl h0 script s e : XInv fl h0 script s -> XInv fl h0 script (xstepT s e).
 Proof.
   intros [A B]. unfold xstepT, xstep. destruct e as [|k|b]; [| |split; assumption].
   - destruct (xhst s) eqn:Eh; try (split; [exact A|rewrite Eh; exact B]).
@@ -506,7 +882,7 @@ Proof.
     + assert (B' : script = (xexec s ++ [a]) ++ rest).
       { rewrite <- app_assoc. destruct B as [B|[B _]]; [exact B|discriminate]. }
       assert (Hgen : forall w' res, rw_act (xrw s) a = (w', res) ->
-                XInv h0 script
+                XInv fl h0 script
                   match res with
                   | RPanic p => mkX w' (HPanicked p) [] (xexec s ++ [a]) (xdk s)
                   | _ => mkX w' HRun rest (xexec s ++ [a]) (xdk s)
@@ -514,7 +890,7 @@ Proof.
       { intros w' res Ea. split.
         - destruct res; cbn [xrw xexec]; rewrite direct_snoc, <- A, Ea; reflexivity.
         - destruct res; cbn; try (left; exact B'). exists rest. exact B'. }
-      destruct a as [k v|k v|k|c|bs| |p];
+      destruct a as [k v|k v|k|c|bs| |p| ];
         try solve [destruct (rw_act (xrw s) _) as [w' res] eqn:Ea;
                    generalize (Hgen w' res eq_refl); destruct res; cbn; auto].
       destruct (xdk s) eqn:Ed; split; cbn [xrw xexec xhst xrest xdk].
@@ -530,18 +906,18 @@ Proof.
     + eapply cut_mono, B.
 Qed.
 
-Lemma xinv_run h0 script sched : forall s, XInv h0 script s -> XInv h0 script (xrun s sched).
+Lemma xinv_run fl h0 script sched : forall s, XInv fl h0 script s -> XInv fl h0 script (xrun s sched).
 Proof.
   induction sched as [|e sched IH]; intros s I; cbn; [exact I|].
   apply IH, xinv_step, I.
 Qed.
 
-Lemma exempt_direct h0 script sched :
-  let s := xrun (xinit h0 script) sched in
-  xrw s = direct h0 (xexec s) /\
+Lemma exempt_direct fl h0 script sched :
+  let s := xrun (xinit fl h0 script) sched in
+  xrw s = direct fl h0 (xexec s) /\
   (xhst s = HDone -> cut script (xexec s) (xdk s)).
 Proof.
-  intros s. assert (I : XInv h0 script s).
+  intros s. assert (I : XInv fl h0 script s).
   { apply xinv_run. split; cbn; auto. }
   destruct I as [A B]. split; [exact A|]. intros Eh. rewrite Eh in B. exact B.
 Qed.
@@ -656,68 +1032,89 @@ Proof.
   rewrite <- E. apply IH. rewrite E. exact Hs.
 Qed.
 
+
 (* ------------------------------------------------------------------ *)
 (* corollaries used by Props.v                                          *)
 
 Lemma run_app s a b : run s (a ++ b) = run (run s a) b.
 Proof. unfold run. apply fold_left_app. Qed.
 
-Lemma ignoring_ctx_lemma h0 script sched :
-  ignores_ctx script ->
-  sst (run (init h0 script) sched) = SDoneRet ->
-  rw (run (init h0 script) sched) = spec_complete h0 script /\
-  spec_panic false script = None.
+Lemma ignoring_ctx_lemma fl h0 script sched :
+  fl = false \/ has_flush script = false ->
+  ignores_ctx script -> info_first fl script = false ->
+  sst (run (init fl h0 script) sched) = SDoneRet ->
+  rw (run (init fl h0 script) sched) = spec_complete fl h0 script /\
+  spec_panic fl false script = None.
 Proof.
-  intros Hi Hs.
-  destruct (all_or_nothing_lemma h0 script sched) as [E|ex E1 E2 E3 E4 E5 E6 E7|k E|p E];
+  intros Hf Hi Hq Hs.
+  destruct (all_or_nothing_lemma fl h0 script sched Hf) as [E|ex E1 E2 E3 E4 E5 E6 E7|k E|p E];
     try congruence.
   assert (Hx : ex = script) by (eapply cut_ignores; eauto).
-  rewrite Hx in E5, E7. split; assumption.
+  rewrite Hx in E5, E7. split; auto.
 Qed.
 
-Lemma no_deadline_lemma h0 script sched :
+Lemma no_deadline_lemma fl h0 script sched :
+  fl = false \/ has_flush script = false ->
   no_d sched ->
-  (forall k, sst (run (init h0 script) sched) <> STimeoutRet k) /\
-  (sst (run (init h0 script) sched) = SDoneRet ->
-   rw (run (init h0 script) sched) = spec_complete h0 script).
+  (forall k, sst (run (init fl h0 script) sched) <> STimeoutRet k) /\
+  (sst (run (init fl h0 script) sched) = SDoneRet -> info_first fl script = false ->
+   rw (run (init fl h0 script) sched) = spec_complete fl h0 script).
+Proof.
+  intros Hf Hn.
+  assert (Hd : dk (run (init fl h0 script) sched) = None) by (apply no_d_dk; auto).
+  destruct (all_or_nothing_lemma fl h0 script sched Hf) as [E|ex E1 E2 E3 E4 E5 E6 E7|k E E'|p E];
+    split; try congruence.
+  intros _ Hq. rewrite Hd in E4. apply cut_no_d in E4. rewrite E4 in E7. apply E7, Hq.
+Qed.
+
+(* with Flush: no Done event, the handler returned: the client's view is the description *)
+Lemma no_deadline_flush_lemma fl h0 script sched :
+  no_d sched ->
+  (forall k, sst (run (init fl h0 script) sched) <> STimeoutRet k) /\
+  (sst (run (init fl h0 script) sched) = SDoneRet -> info_first fl script = false ->
+   rw_view (rw (run (init fl h0 script) sched)) = spec_view fl h0 script).
 Proof.
   intros Hn.
-  assert (Hd : dk (run (init h0 script) sched) = None) by (apply no_d_dk; auto).
-  destruct (all_or_nothing_lemma h0 script sched) as [E|ex E1 E2 E3 E4 E5 E6 E7|k E E'|p E];
+  assert (Hd : dk (run (init fl h0 script) sched) = None) by (apply no_d_dk; auto).
+  destruct (all_or_nothing_flush_lemma fl h0 script sched) as [E|ex E1 E2 E3 E4 E5 E6|k pre E E'|p E];
     split; try congruence.
-  intros _. rewrite Hd in E4. apply cut_no_d in E4. rewrite E4 in E7. exact E7.
+  intros _ Hq. rewrite Hd in E4. apply cut_no_d in E4. rewrite E6. subst ex. rewrite E4 in *.
+  apply complete_view_spec; auto.
 Qed.
 
-Lemma response_final_lemma h0 script sched1 sched2 :
-  sst (run (init h0 script) sched1) <> SWait ->
-  rw (run (init h0 script) (sched1 ++ sched2)) = rw (run (init h0 script) sched1) /\
-  sst (run (init h0 script) (sched1 ++ sched2)) = sst (run (init h0 script) sched1).
+Lemma response_final_lemma fl h0 script sched1 sched2 :
+  sst (run (init fl h0 script) sched1) <> SWait ->
+  rw (run (init fl h0 script) (sched1 ++ sched2)) = rw (run (init fl h0 script) sched1) /\
+  sst (run (init fl h0 script) (sched1 ++ sched2)) = sst (run (init fl h0 script) sched1).
 Proof.
   intros Hs. rewrite run_app.
-  destruct (run_after_return sched2 _ Hs) as [E1 E2]. auto.
+  destruct (run_after_return fl h0 script sched2 _ (inv_reach fl h0 script sched1) Hs) as [E1 E2]. auto.
 Qed.
 
-Lemma nothing_after_timeout_lemma h0 script sched1 sched2 k :
-  sst (run (init h0 script) sched1) = STimeoutRet k ->
-  rw (run (init h0 script) (sched1 ++ sched2)) = timeout_resp h0 k /\
-  sst (run (init h0 script) (sched1 ++ sched2)) = STimeoutRet k.
+Lemma nothing_after_timeout_lemma fl h0 script sched1 sched2 k :
+  sst (run (init fl h0 script) sched1) = STimeoutRet k ->
+  rw (run (init fl h0 script) (sched1 ++ sched2)) = rw (run (init fl h0 script) sched1) /\
+  sst (run (init fl h0 script) (sched1 ++ sched2)) = STimeoutRet k /\
+  (fl = false \/ has_flush script = false ->
+   rw (run (init fl h0 script) (sched1 ++ sched2)) = timeout_resp fl h0 k).
 Proof.
   intros Hs.
-  destruct (response_final_lemma h0 script sched1 sched2 ltac:(congruence)) as [E1 E2].
-  rewrite E1, E2. split; [|exact Hs].
-  destruct (all_or_nothing_lemma h0 script sched1) as [E|ex E3 E4 E5 E6 E7 E8 E9|k' E E' E''|p E];
+  destruct (response_final_lemma fl h0 script sched1 sched2 ltac:(congruence)) as [E1 E2].
+  rewrite E1, E2. split; [reflexivity|]. split; [exact Hs|].
+  intros Hf.
+  destruct (all_or_nothing_lemma fl h0 script sched1 Hf) as [E|ex E3 E4 E5 E6 E7 E8 E9|k' E E' E''|p E];
     try congruence.
 Qed.
 
-Lemma exempt_lemma dur rq parent now h0 script sched :
+Lemma exempt_lemma dur rq parent now fl h0 script sched :
   rq <> RqPlain ->
   wrapped dur rq = false /\ rest_deadline dur rq parent now = parent /\
-  xrw (xrun (xinit h0 script) sched) = direct h0 (xexec (xrun (xinit h0 script) sched)) /\
-  (xhst (xrun (xinit h0 script) sched) = HDone ->
-   cut script (xexec (xrun (xinit h0 script) sched)) (xdk (xrun (xinit h0 script) sched))).
+  xrw (xrun (xinit fl h0 script) sched) = direct fl h0 (xexec (xrun (xinit fl h0 script) sched)) /\
+  (xhst (xrun (xinit fl h0 script) sched) = HDone ->
+   cut script (xexec (xrun (xinit fl h0 script) sched)) (xdk (xrun (xinit fl h0 script) sched))).
 Proof.
   intros H. destruct (rest_exempt dur rq parent now H) as [E1 E2].
-  destruct (exempt_direct h0 script sched) as [E3 E4]. auto.
+  destruct (exempt_direct fl h0 script sched) as [E3 E4]. auto.
 Qed.
 
 (* ------------------------------------------------------------------ *)
@@ -755,34 +1152,86 @@ Proof.
     + rewrite mstep_frame by exact E. reflexivity.
 Qed.
 
-Lemma requests_isolated_lemma reqs sched i h0 script :
-  nth_error reqs i = Some (h0, script) ->
+Lemma requests_isolated_lemma reqs sched i q :
+  nth_error reqs i = Some q ->
   exists s, nth_error (mrun (minit reqs) sched) i = Some s /\
-            s = run (init h0 script) (proj i sched) /\
-            outcome h0 script s.
+            s = run (init (q_fl q) (q_h0 q) (q_script q)) (proj i sched) /\
+            outcome (q_fl q) (q_h0 q) (q_script q) s /\
+            (q_fl q = false \/ has_flush (q_script q) = false ->
+             outcome_strict (q_fl q) (q_h0 q) (q_script q) s).
 Proof.
-  intros H. exists (run (init h0 script) (proj i sched)).
-  split; [|split; [reflexivity|apply all_or_nothing_lemma]].
+  intros H. exists (run (init (q_fl q) (q_h0 q) (q_script q)) (proj i sched)).
+  split; [|split; [reflexivity|split; [apply all_or_nothing_flush_lemma|apply all_or_nothing_lemma]]].
   rewrite mrun_proj. unfold minit.
-  rewrite (map_nth_error (fun r => init (fst r) (snd r)) i reqs H). reflexivity.
+  rewrite (map_nth_error (fun r => init (q_fl r) (q_h0 r) (q_script r)) i reqs H). reflexivity.
 Qed.
 
 (* once request i got its timeout reply, nothing any thread of any request does changes it *)
-Lemma isolated_timeout_final reqs sched1 sched2 i h0 script k s1 :
-  nth_error reqs i = Some (h0, script) ->
+Lemma isolated_timeout_final reqs sched1 sched2 i q k s1 :
+  nth_error reqs i = Some q ->
   nth_error (mrun (minit reqs) sched1) i = Some s1 -> sst s1 = STimeoutRet k ->
   exists s2, nth_error (mrun (minit reqs) (sched1 ++ sched2)) i = Some s2 /\
-             rw s2 = timeout_resp h0 k /\ sst s2 = STimeoutRet k.
+             rw s2 = rw s1 /\ sst s2 = STimeoutRet k /\
+             (q_fl q = false \/ has_flush (q_script q) = false ->
+              rw s2 = timeout_resp (q_fl q) (q_h0 q) k).
 Proof.
   intros H H1 Hs.
-  destruct (requests_isolated_lemma reqs sched1 i h0 script H) as (s & E & Es & _).
-  assert (E1 : s1 = run (init h0 script) (proj i sched1)) by congruence.
-  destruct (requests_isolated_lemma reqs (sched1 ++ sched2) i h0 script H) as (s2 & E2 & Es2 & _).
+  destruct (requests_isolated_lemma reqs sched1 i q H) as (s & E & Es & _).
+  assert (E1 : s1 = run (init (q_fl q) (q_h0 q) (q_script q)) (proj i sched1)) by congruence.
+  destruct (requests_isolated_lemma reqs (sched1 ++ sched2) i q H) as (s2 & E2 & Es2 & _).
   exists s2. split; [exact E2|].
   assert (P : proj i (sched1 ++ sched2) = proj i sched1 ++ proj i sched2).
   { unfold proj. rewrite filter_app, map_app. reflexivity. }
-  rewrite P in Es2. rewrite E1 in Hs. rewrite Es2.
+  rewrite P in Es2. rewrite E1 in Hs. rewrite Es2, E1.
   apply nothing_after_timeout_lemma, Hs.
+Qed.
+
+(* the same with wrapped and unwrapped requests side by side (one server, many routes) *)
+Lemma cmstep_frame cs i e j : i <> j -> nth_error (cmstepT cs (i, e)) j = nth_error cs j.
+Proof. intros H. unfold cmstepT. cbn. apply nth_error_upd_other, H. Qed.
+
+Lemma cmstep_own cs i e :
+  nth_error (cmstepT cs (i, e)) i = option_map (fun c => cstepT c e) (nth_error cs i).
+Proof. unfold cmstepT. cbn. apply nth_error_upd_same. Qed.
+
+Lemma cmrun_proj : forall sched cs j,
+  nth_error (cmrun cs sched) j = option_map (fun c => crun c (proj j sched)) (nth_error cs j).
+Proof.
+  induction sched as [|[i e] sched IH]; intros cs j.
+  - cbn. destruct (nth_error cs j); reflexivity.
+  - cbn [cmrun fold_left]. change (fold_left cmstepT sched (cmstepT cs (i, e))) with (cmrun (cmstepT cs (i, e)) sched).
+    rewrite IH. unfold proj. cbn [filter fst]. destruct (Nat.eqb_spec i j) as [E|E].
+    + subst j. rewrite cmstep_own. cbn [map snd]. destruct (nth_error cs i); reflexivity.
+    + rewrite cmstep_frame by exact E. reflexivity.
+Qed.
+
+Lemma crun_wrapped : forall sched s, crun (CW s) sched = CW (run s sched).
+Proof.
+  induction sched as [|e sched IH]; intros s; [reflexivity|].
+  cbn [crun fold_left run]. change (fold_left cstepT sched (cstepT (CW s) e)) with (crun (cstepT (CW s) e) sched).
+  unfold cstepT at 1, cstep, stepT. destruct (step s e) as [[s' r]|]; apply IH.
+Qed.
+
+Lemma crun_unwrapped : forall sched s, crun (CX s) sched = CX (xrun s sched).
+Proof.
+  induction sched as [|e sched IH]; intros s; [reflexivity|].
+  cbn [crun fold_left xrun]. change (fold_left cstepT sched (cstepT (CX s) e)) with (crun (cstepT (CX s) e) sched).
+  unfold cstepT at 1, cstep, xstepT. destruct (xstep s e) as [[s' r]|]; apply IH.
+Qed.
+
+Lemma server_requests_isolated_lemma (wraps : list bool) (reqs : list request) sched i wrap q :
+  nth_error wraps i = Some wrap -> nth_error reqs i = Some q ->
+  nth_error (cmrun (map (fun wq => cinit (fst wq) (snd wq)) (combine wraps reqs)) sched) i =
+  Some (if wrap then CW (run (init (q_fl q) (q_h0 q) (q_script q)) (proj i sched))
+        else CX (xrun (xinit (q_fl q) (q_h0 q) (q_script q)) (proj i sched))).
+Proof.
+  intros Hw Hq. rewrite cmrun_proj.
+  assert (Hc : nth_error (combine wraps reqs) i = Some (wrap, q)).
+  { revert wraps reqs Hw Hq. induction i as [|i IH]; intros [|w ws] [|r rs] Hw Hq; cbn in *; try discriminate.
+    - congruence.
+    - apply IH; assumption. }
+  rewrite (map_nth_error (fun wq => cinit (fst wq) (snd wq)) i _ Hc). cbn.
+  unfold cinit. destruct wrap; [rewrite crun_wrapped|rewrite crun_unwrapped]; reflexivity.
 Qed.
 
 (* ------------------------------------------------------------------ *)
@@ -840,4 +1289,93 @@ Proof.
   change (fold_left wstepT (proj i sched2) (fold_left wstepT (proj i sched1) (winit w)))
     with (wrun (wrun (winit w) (proj i sched1)) (proj i sched2)).
   rewrite <- E1. apply slot_sticky, Hs.
+Qed.
+
+(* ------------------------------------------------------------------ *)
+(* the rest engine                                                      *)
+
+Lemma route_conf_snoc opts o : route_conf (opts ++ [o]) = apply_opt (route_conf opts) o.
+Proof. unfold route_conf. rewrite fold_left_app. reflexivity. Qed.
+
+(* no option: the server's timeout; the last WithTimeout / WithSSE decides *)
+Lemma route_conf_none : route_conf [] = mkFR 0 false.
+Proof. reflexivity. Qed.
+
+Lemma route_conf_last_timeout opts t : fr_timeout (route_conf (opts ++ [OptTimeout t])) = t.
+Proof. rewrite route_conf_snoc. reflexivity. Qed.
+
+Lemma route_conf_last_sse opts :
+  route_conf (opts ++ [OptSSE]) = mkFR 0 true.
+Proof. rewrite route_conf_snoc. reflexivity. Qed.
+
+Lemma eng_route_dur_spec mw conf_ms f :
+  (mw = false -> eng_route_dur mw conf_ms f = 0) /\
+  (mw = true -> 0 < fr_timeout f -> eng_route_dur mw conf_ms f = fr_timeout f) /\
+  (mw = true -> fr_timeout f <= 0 -> eng_route_dur mw conf_ms f = conf_ms * 1000000).
+Proof.
+  unfold eng_route_dur. destruct mw; repeat split; try discriminate; intros _ H;
+    apply checked_timeout_spec; exact H.
+Qed.
+
+Lemma eng_deadline_shrinks mw conf_ms f parent now :
+  0 < eng_route_dur mw conf_ms f ->
+  exists d, eng_deadline mw conf_ms f RqPlain parent now = Some d /\
+            d <= now + eng_route_dur mw conf_ms f /\
+            (forall p, parent = Some p -> d <= p).
+Proof.
+  intros H. unfold eng_deadline. apply rest_deadline_shrinks.
+  unfold wrapped. destruct (Z.ltb_spec 0 (eng_route_dur mw conf_ms f)); [reflexivity|lia].
+Qed.
+
+Lemma eng_exempt mw conf_ms f rq parent now :
+  rq <> RqPlain \/ eng_route_dur mw conf_ms f <= 0 ->
+  wrapped (eng_route_dur mw conf_ms f) rq = false /\
+  eng_deadline mw conf_ms f rq parent now = parent.
+Proof.
+  intros [H|H].
+  - apply rest_exempt, H.
+  - unfold eng_deadline, rest_deadline, wrapped.
+    destruct (Z.ltb_spec 0 (eng_route_dur mw conf_ms f)); [lia|]. cbn. auto.
+Qed.
+
+(* ng.timeout is at least the server's own timeout and every group's timeout *)
+Lemma eng_timeout_ge_acc : forall groups m,
+  m <= fold_left (fun m g => if m <? fr_timeout g then fr_timeout g else m) groups m.
+Proof.
+  induction groups as [|g groups IH]; intros m; cbn; [lia|].
+  destruct (Z.ltb_spec m (fr_timeout g)).
+  - specialize (IH (fr_timeout g)). lia.
+  - apply IH.
+Qed.
+
+Lemma eng_timeout_ge_group : forall groups m g,
+  In g groups ->
+  fr_timeout g <= fold_left (fun m g => if m <? fr_timeout g then fr_timeout g else m) groups m.
+Proof.
+  induction groups as [|g' groups IH]; intros m g Hin; [destruct Hin|]. destruct Hin as [E|Hin]; cbn.
+  - subst g'. destruct (Z.ltb_spec m (fr_timeout g)).
+    + apply eng_timeout_ge_acc.
+    + pose proof (eng_timeout_ge_acc groups m). lia.
+  - apply IH, Hin.
+Qed.
+
+(* every route's timeout fits into the http.Server's WriteTimeout (so the 503 can be written) *)
+Lemma write_timeout_covers mw conf_ms groups g :
+  In g groups -> 0 <= conf_ms ->
+  eng_route_dur mw conf_ms g <= srv_write_timeout (eng_timeout conf_ms groups) /\
+  srv_read_timeout (eng_timeout conf_ms groups) <= eng_timeout conf_ms groups.
+Proof.
+  intros Hin Hc.
+  pose proof (eng_timeout_ge_group groups (conf_ms * 1000000) g Hin) as H1.
+  pose proof (eng_timeout_ge_acc groups (conf_ms * 1000000)) as H2.
+  fold (eng_timeout conf_ms groups) in H1, H2.
+  set (t := eng_timeout conf_ms groups) in *.
+  assert (Hd : eng_route_dur mw conf_ms g <= t /\ 0 <= t).
+  { split; [|lia]. unfold eng_route_dur, checked_timeout. destruct mw; [|lia].
+    destruct (Z.ltb_spec 0 (fr_timeout g)); lia. }
+  unfold srv_write_timeout, srv_read_timeout. destruct (Z.ltb_spec 0 t).
+  - split.
+    + assert (t <= 11 * t / 10) by (apply Z.div_le_lower_bound; lia). lia.
+    + apply Z.div_le_upper_bound; lia.
+  - split; lia.
 Qed.
